@@ -296,4 +296,10 @@ def unit_case(draw, cmds, max_rank=1, dtypes=("float64", "int64"), wild=False, m
         arrays.append(spec)
     data_pool = [x for a in arrays for x, m in zip(a["data"], a["mask"] or [0] * size) if not m and math.isfinite(x)][:6]
     params = draw(params_for(cmd, n, data_pool or pool, wild=wild))
-    return {"cmd": cmd, "params": params, "arrays": arrays, "shape": shape}
+    case = {"cmd": cmd, "params": params, "arrays": arrays, "shape": shape}
+    if n >= 2 and draw(st.integers(0, 7)) == 0:
+        # the same result listed twice: input j is the very object that input i is
+        i, j = sorted(draw(st.lists(st.integers(0, n - 1), min_size=2, max_size=2, unique=True)))
+        arrays[j] = dict(arrays[i])
+        case["aliases"] = [[i, j]]
+    return case
